@@ -693,6 +693,34 @@ pub fn inject_path_clash(reg: &PortableRegistry, rng: &mut Rng, pairs: usize) ->
     r
 }
 
+/// Two paths in one namespace, `Name` and `Name<k>` (k = 1, 2 or 11), each carried by two
+/// differently shaped types: the names handed out while renaming `Name` collide with the
+/// sibling that is renamed in the same pass.
+pub fn inject_numbered_clash(reg: &PortableRegistry, rng: &mut Rng) -> PortableRegistry {
+    let mut r = reg.clone();
+    let mut named: Vec<usize> = r
+        .types
+        .iter()
+        .enumerate()
+        .filter(|(_, t)| refmodel::is_generated_kind(&t.ty))
+        .map(|(i, _)| i)
+        .collect();
+    if named.len() < 4 {
+        return r;
+    }
+    rng.shuffle(&mut named);
+    let base = r.types[named[0]].ty.path.clone();
+    let mut sibling = base.clone();
+    let k = *rng.pick(&[1u32, 1, 2, 11]);
+    if let Some(last) = sibling.segments.last_mut() {
+        *last = format!("{last}{k}");
+    }
+    r.types[named[1]].ty.path = base;
+    r.types[named[2]].ty.path = sibling.clone();
+    r.types[named[3]].ty.path = sibling;
+    r
+}
+
 pub fn pick_registry(w: &World, rng: &mut Rng, run: u64, full_runs: u64) -> (String, PortableRegistry) {
     if run < full_runs {
         return ("polkadot:full".into(), w.polkadot.clone());
@@ -706,7 +734,14 @@ pub fn pick_registry(w: &World, rng: &mut Rng, run: u64, full_runs: u64) -> (Str
             let e = rng.pick(&w.dups);
             (e.name.clone(), e.reg.clone())
         }
-        52..=63 => {
+        52..=55 => {
+            let e = rng.pick(&w.families);
+            (
+                format!("derived:numbered-clash:{}", e.name),
+                inject_numbered_clash(&e.reg, rng),
+            )
+        }
+        56..=63 => {
             let e = rng.pick(&w.families);
             let pairs = 1 + rng.usize_below(3);
             (
